@@ -304,3 +304,138 @@ Example C02_source_example_run :
   | _ => None
   end = Some (dict_pv [([VInt 1], [VInt 2; VInt 15]); ([VNull], [VInt 1; VInt 1])]).
 Proof. vm_compute. reflexivity. Qed.
+
+(* ------------------------------------------------------------------ the rest of the aggregated branch and its composition *)
+(* (2) the translated split of the targets: grouping expressions = the targets at the positions of group_indexes, in
+   target order; aggregate nodes = what compiler.get_columns_and_aggregates (opaque callable 0, behaviour stated by
+   gca_ok) finds below the other targets, concatenated in target order *)
+Theorem C02_source_split : forall call_ref (g : list nat) (aggs_of : nat -> list pv) (tks : list nat),
+  Forall (gca_ok call_ref aggs_of) tks ->
+  exists s',
+    exec_block call_ref (c02_p2 call_ref)
+      {| locals := [("c_target_exprs", PList (map PRef tks)); ("group_indexes", PList (map idx g))]; fields := [] |}
+      (f_body agg_split) = Ok (Next s') /\
+    lookup "c_nonaggregate_exprs" (locals s') = Some (PList (map PRef (fst (split_from g aggs_of 0 tks)))) /\
+    lookup "c_aggregate_exprs" (locals s') = Some (PList (snd (split_from g aggs_of 0 tks))).
+Proof. exact agg_split_linked. Qed.
+Print Assumptions C02_source_split.
+
+(* (2) the translated allocate loop (Allocator() and EvalAggregator.allocate interpreted from their translations) gives
+   node i the handle i: the premise `handle = position` of C02_source_scan_loop *)
+Theorem C02_source_allocate_loop : forall call_ref (ds : list (nat * nat * pv)) (vals : list pv),
+  Forall (fun d => (fst (fst d) < 8)%nat) ds -> List.length vals = List.length ds ->
+  exists s',
+    exec_block call_ref (c02_p2 call_ref) {| locals := [("c_aggregate_exprs", PList (raw_nodes ds vals))]; fields := [] |}
+      (f_body agg_alloc) = Ok (Next s') /\
+    lookup "allocator" (locals s') = Some (alloc_pv (PInt (Z.of_nat (List.length ds)))) /\
+    lookup "c_aggregate_exprs" (locals s') = Some (PList (mk_nodes_from 0 ds vals)).
+Proof. exact agg_alloc_linked. Qed.
+Print Assumptions C02_source_allocate_loop.
+
+(* (4) the translated output part: for every entry of the store, in insertion order: finalize every aggregate, grouped
+   positions take next(key_iter), the others c_expr(context) (context = the last scanned row; with the finalised value
+   slots[h] parked on node h the target evaluates to Eval.eval ctx slots e), skip the row when values[having_index] is
+   falsy: Exec.finalize (out_values, having_ok), for every store and every target list *)
+Theorem C02_source_output_loop : forall call_ref (q : query) (g : list nat) (ctx : row) (cv : pv)
+    (ds : list (nat * nat * pv)) (tks : list nat) (qobj : pv) (s : store) (acc : list row) (vals : list pv),
+  Forall (fun d => (fst (fst d) < 8)%nat) ds -> List.length ds = List.length (q_aggs q) ->
+  Forall (entry_ok q g ctx) s ->
+  (s <> [] -> targets_ok_from call_ref q g ctx cv (mk_nodes_from 0 ds) 0 tks (q_targets q)) ->
+  qobj <> PSelf -> c02_p2 call_ref "attr:having_index" [qobj] = Ok (having_pv q) ->
+  List.length vals = List.length (q_aggs q) ->
+  exists s',
+    exec_block call_ref (c02_p2 call_ref)
+      {| locals := [("aggregates", dict_pv s); ("c_aggregate_exprs", PList (mk_nodes_from 0 ds vals));
+                    ("c_target_exprs", PList (map PRef tks)); ("group_indexes", PList (map idx g)); ("context", cv);
+                    ("query", qobj); ("rows", PList (map slots_pv acc))]; fields := [] |}
+      (f_body agg_output) = Ok (Next s') /\
+    lookup "rows" (locals s') = Some (PList (map slots_pv (acc ++ finalize q g ctx s))).
+Proof. exact agg_output_linked. Qed.
+Print Assumptions C02_source_output_loop.
+
+(* (5) the WHOLE translated aggregated branch (split, allocate, scan, output: Gen/SrcAgg.agg_branch is their
+   concatenation, checked by the generator and by agg_branch_shape), run with the translated Allocator and protocol
+   methods, leaves in `rows` exactly Exec.exec_rows q table - the function C02_partition_fold is about - for ALL tables
+   and all queries with: aggregate nodes of the generated classes matching q_aggs (node_ok) in hunting order, comparable
+   min/max columns, grouped targets / WHERE independent of the node state, the other targets = Eval.eval on the last row
+   with the finalised slots (where that is not an exception), no output cell an exception value (C04), having_index inside
+   the target list. *)
+Theorem C02_source_agg_branch : forall call_ref ctx_of (q : query) (table : list row) (g : list nat)
+    (ds : list (nat * nat * pv)) (aggs_of : nat -> list pv) (tks : list nat) (cw qobj : pv) (vals0 : list pv),
+  q_group q = Some g ->
+  Forall2 (node_ok call_ref ctx_of table) (q_aggs q) ds -> homogeneous q table -> List.length vals0 = List.length ds ->
+  Forall (gca_ok call_ref aggs_of) tks -> snd (split_from g aggs_of 0 tks) = raw_nodes ds vals0 ->
+  qobj <> PSelf -> c02_p2 call_ref "attr:table" [qobj] = Ok (PList (map ctx_of table)) ->
+  c02_p2 call_ref "attr:having_index" [qobj] = Ok (having_pv q) ->
+  where_ok call_ref ctx_of q table (mk_nodes_from 0 ds) cw ->
+  gtargets_ok_from call_ref ctx_of g table (mk_nodes_from 0 ds) 0 tks (q_targets q) ->
+  (table <> [] ->
+   targets_ok_from call_ref q g (last table []) (ctx_of (last table [])) (mk_nodes_from 0 ds) 0 tks (q_targets q)) ->
+  (forall ks, In ks (scan_agg q g [] table) ->
+     no_err (out_values g (last table []) (snd ks) 0 (q_targets q) (fst ks))) ->
+  having_bound q ->
+  exists s',
+    exec_block call_ref (c02_p2 call_ref)
+      {| locals := [("c_target_exprs", PList (map PRef tks)); ("group_indexes", PList (map idx g)); ("query", qobj);
+                    ("c_where", cw); ("rows", PList [])]; fields := [] |}
+      (f_body agg_branch) = Ok (Next s') /\
+    lookup "rows" (locals s') = Some (PList (map slots_pv (exec_rows q table))).
+Proof. exact agg_branch_exec_rows. Qed.
+Print Assumptions C02_source_agg_branch.
+
+(* non-vacuity: the whole translated branch RUNS on the demo query (targets: column a, count( * ), sum(b); the two
+   aggregate targets read the value parked on their node) and yields the model's rows *)
+Definition c02_demo_ref2 : nat -> list pv -> pv :=
+  fun k args =>
+    match k, args with
+    | 0%nat, [PRef 10] => PTuple [PList [PRef 10]; PList []]
+    | 0%nat, [PRef 30] => PTuple [PList []; PList [node_pv 0 PNone (PRef 20) (PList []) PNone]]
+    | 0%nat, [PRef 31] => PTuple [PList []; PList [node_pv 2 PNone (PRef 20) (PList [PRef 11]) PNone]]
+    | 30%nat, [_; PList [PTuple [_; _; _; _; v]; _]] => v
+    | 31%nat, [_; PList [_; PTuple [_; _; _; _; v]]] => v
+    | _, _ => c02_demo_ref k args
+    end.
+
+Example C02_source_example_branch :
+  match exec_block c02_demo_ref2 (c02_p2 c02_demo_ref2)
+          {| locals := [("c_target_exprs", PList [PRef 10; PRef 30; PRef 31]); ("group_indexes", PList [idx 0]);
+                        ("query", aquery_obj (PList (map key_pv c02_demo_table)) PNone); ("c_where", PNone);
+                        ("rows", PList [])]; fields := [] |}
+          (f_body agg_branch) with
+  | Ok (Next s') => lookup "rows" (locals s')
+  | _ => None
+  end = Some (PList (map slots_pv (exec_rows c02_demo_q c02_demo_table))).
+Proof. vm_compute. reflexivity. Qed.
+
+(* ... and the hypotheses of C02_source_agg_branch hold for it *)
+Definition c02_demo_aggs_of (k : nat) : list pv :=
+  match k with
+  | 30%nat => [node_pv 0 PNone (PRef 20) (PList []) PNone]
+  | 31%nat => [node_pv 2 PNone (PRef 20) (PList [PRef 11]) PNone]
+  | _ => []
+  end.
+
+Example C02_source_example_branch_hyps :
+  Forall2 (node_ok c02_demo_ref2 key_pv c02_demo_table) (q_aggs c02_demo_q) c02_demo_ds /\
+  Forall (gca_ok c02_demo_ref2 c02_demo_aggs_of) [10%nat; 30%nat; 31%nat] /\
+  snd (split_from [0%nat] c02_demo_aggs_of 0 [10%nat; 30%nat; 31%nat]) = raw_nodes c02_demo_ds [PNone; PNone] /\
+  gtargets_ok_from c02_demo_ref2 key_pv [0%nat] c02_demo_table (mk_nodes_from 0 c02_demo_ds) 0 [10%nat; 30%nat; 31%nat]
+    (q_targets c02_demo_q) /\
+  targets_ok_from c02_demo_ref2 c02_demo_q [0%nat] (last c02_demo_table []) (key_pv (last c02_demo_table []))
+    (mk_nodes_from 0 c02_demo_ds) 0 [10%nat; 30%nat; 31%nat] (q_targets c02_demo_q) /\
+  (forall ks, In ks (scan_agg c02_demo_q [0%nat] [] c02_demo_table) ->
+     no_err (out_values [0%nat] (last c02_demo_table []) (snd ks) 0 (q_targets c02_demo_q) (fst ks))) /\
+  having_bound c02_demo_q.
+Proof.
+  split; [|split; [|split; [|split; [|split; [|split]]]]].
+  - repeat constructor; cbn; try tauto; try discriminate.
+    intros _ r [<-|[<-|[<-|[]]]]; exists 11%nat; repeat split.
+  - repeat constructor; eexists; reflexivity.
+  - reflexivity.
+  - cbn. repeat split; try discriminate;
+      match goal with H : _ \/ _ |- _ => destruct H as [<-|[<-|[<-|[]]]] end; reflexivity.
+  - cbn. repeat split; try discriminate; intros _ sl Hl He;
+      destruct sl as [|a [|b [|? ?]]]; try discriminate; reflexivity.
+  - intros ks [<-|[<-|[]]]; repeat constructor.
+  - exact I.
+Qed.
